@@ -218,8 +218,12 @@ def main_check(modname, tier, seed, replay_path=None, extra_cov=None):
     nondet = []
     for key in order:
         case = groups[key]["first"]["case"]
-        r1 = mod.replay(case)
-        r2 = mod.replay(case)
+        try:
+            r1 = mod.replay(case)
+            r2 = mod.replay(case)
+        except Exception:
+            sys.stderr.write("HARNESS-ERROR replay of key=%s raised\n%s\n" % (key, traceback.format_exc()[-2000:]))
+            return 3
         k1 = sorted(v["key"] + "::" + v["msg"] for v in r1)
         k2 = sorted(v["key"] + "::" + v["msg"] for v in r2)
         if k1 != k2 or key not in [v["key"] for v in r1]:
